@@ -459,10 +459,12 @@ func runSerial(phases []phase) error {
 	var mu sync.Mutex
 	failOpens := 0
 	opened := 0
+	attempts := 0 // every call of the opener, successful or not
 	var cur *sim.Pipe
 	serialDevices.Store(dev, func() (io.ReadWriteCloser, error) {
 		mu.Lock()
 		defer mu.Unlock()
+		attempts++
 		if failOpens > 0 {
 			failOpens--
 			return nil, errors.New("injected open failure")
@@ -506,8 +508,27 @@ func runSerial(phases []phase) error {
 		mu.Lock()
 		p := cur
 		mu.Unlock()
+		framesBefore := 0
+		for _, r := range rec.Snapshot() {
+			if _, ok := r.Ev.(*gomavlib.EventFrame); ok {
+				framesBefore++
+			}
+		}
 		for k := 0; k < ph.n; k++ {
 			p.Feed(tagged(1, k, "debug", true, nil, 0).Bytes())
+		}
+		// all of this phase's frames must have surfaced before the fault (a stalled consumer would otherwise
+		// keep the reader parked on a frame event and the read fault would never be seen)
+		if !rec.WaitFor(bound, func(recs []sim.Rec) bool {
+			k := 0
+			for _, r := range recs {
+				if _, ok := r.Ev.(*gomavlib.EventFrame); ok {
+					k++
+				}
+			}
+			return k >= framesBefore+ph.n
+		}) {
+			return fmt.Errorf("phase %d: frames fed to the serial channel did not surface", pi)
 		}
 		ierr := fmt.Errorf("injected serial read error %d", pi)
 		injected = append(injected, ierr)
@@ -520,7 +541,7 @@ func runSerial(phases []phase) error {
 		}
 		stalled := ph.kind == "readerr-stalled"
 		mu.Lock()
-		opensBefore := opened
+		opensBefore := attempts
 		mu.Unlock()
 		if stalled {
 			rec.Pause() // the application stops consuming events: the close event stays undelivered
@@ -532,11 +553,11 @@ func runSerial(phases []phase) error {
 		if stalled {
 			time.Sleep(5 * c14Reconnect)
 			mu.Lock()
-			opensNow := opened
+			opensNow := attempts
 			mu.Unlock()
 			rec.Resume()
 			if opensNow != opensBefore {
-				return fmt.Errorf("phase %d: the device was opened again (%d -> %d opens) while the close event of the previous channel had not been delivered yet: two channels of a one-channel endpoint at once", pi, opensBefore, opensNow)
+				return fmt.Errorf("phase %d: the endpoint tried to open the device again (%d -> %d open calls) while the close event of the previous channel had not been delivered yet: two channels of a one-channel endpoint at once", pi, opensBefore, opensNow)
 			}
 		}
 		ends++
